@@ -51,6 +51,13 @@ def gen_configs(ctx, n, threads=(1, 2, 3, 4), ckpts=(1, 2, 3, 7, 0), big=False, 
                       "threads": rnd.choice([2, 3]), "lps": rnd.choice([3, 4, 6]), "mem": 0, "rng": 0, "burst": rnd.choice([20, 60, 200]),
                       "budget": 8000000})
             c.pop("tterm", None)
+        # batch length of the worker loop (hook verif_batch; separate stream): short batches make GVT rounds and fossil collections
+        # up to 30x denser per processed event, so histories are short and rollbacks / anti-messages hit their first entries
+        b = rv2.choice([0, 0, 2, 4, 16])
+        if b and "skew" not in c:
+            c["batch"] = b
+            if fossil_heavy and b <= 4:
+                c["period"] = 0
         if rv2.randrange(6) == 0:
             # V2-only GenModel mode (bit 1 of t0): zero-delay forwards of IDENTICAL content to the next LP - allowed by the runtime's
             # contract V2, excluded by strict causality V2s; needs a non-tick event type >= 1
